@@ -9,6 +9,8 @@ Inductive vsk :=
 | VAtomic (fn name : string)                    (* operation on a std::atomic static: never a data race (C++ [intro.races]) *)
 | VPlain (fn name : string) (write : bool)      (* access to a non-atomic static *)
 | VCall (fn callee : string)
+| VSet (fn flag : string)                       (* flag.store(<non-zero literal>) on an atomic static *)
+| VFn (b : vsk)                                 (* body of a function (entry point or inlined callee): `return` ends here *)
 | VGuard (flag : string) (b : vsk)              (* `if (!flag.load())` / `if (!flag)`: b runs only if flag was observed zero *)
 | VSeq (a b : vsk) | VAlt (a b : vsk) | VLoop (a : vsk).
 
@@ -30,7 +32,7 @@ Definition mem_s (s : string) (l : list string) : bool := existsb (String.eqb s)
 (* G = flags whose zero-test encloses the current position *)
 Fixpoint vchk (G : list string) (s : vsk) : list string :=
   match s with
-  | VSkip | VRet | VAtomic _ _ | VCall _ _ => []
+  | VSkip | VRet | VAtomic _ _ | VCall _ _ | VSet _ _ => []
   | VPlain fn name w =>
       match guard_of name with
       | None => ["UNLISTED non-atomic static " ++ name ++ " accessed in " ++ fn]
@@ -39,6 +41,7 @@ Fixpoint vchk (G : list string) (s : vsk) : list string :=
                   else []
       end
   | VGuard g b => vchk (g :: G) b
+  | VFn b => vchk G b
   | VSeq a b | VAlt a b => vchk G a ++ vchk G b
   | VLoop a => vchk G a
   end.
@@ -57,6 +60,8 @@ Inductive vexec : vsk -> list vev -> bool -> Prop :=
 | VX_plain_w : forall fn n, vexec (VPlain fn n true) [VWr n] false
 | VX_plain_r : forall fn n, vexec (VPlain fn n false) [VRd n] false
 | VX_call : forall fn c, vexec (VCall fn c) [VTau] false
+| VX_set : forall fn g, vexec (VSet fn g) [VTau] false
+| VX_fn : forall b t fl, vexec b t fl -> vexec (VFn b) t false
 | VX_guard_skip : forall g b, vexec (VGuard g b) [] false
 | VX_guard_enter : forall g b t fl, vexec b t fl -> vexec (VGuard g b) (VZero g :: t) fl
 | VX_seq : forall a b t1 t2 fl, vexec a t1 false -> vexec b t2 fl -> vexec (VSeq a b) (t1 ++ t2) fl
@@ -66,3 +71,71 @@ Inductive vexec : vsk -> list vev -> bool -> Prop :=
 | VX_loop_0 : forall a, vexec (VLoop a) [] false
 | VX_loop_next : forall a t1 fl1 t2 fl, vexec a t1 fl1 -> vexec (VLoop a) t2 fl -> vexec (VLoop a) (t1 ++ t2) fl
 | VX_loop_exit : forall a t1 fl, vexec a t1 true -> vexec (VLoop a) t1 fl.
+
+(* ------------------------------------------------------------------ value-aware semantics of the guard flags *)
+
+(* nz g = true: flag g holds a non-zero value.  A guard `if (!g)` is entered iff g is zero; VSet makes g non-zero. *)
+Definition flags := string -> bool.
+Definition set_flag (nz : flags) (g : string) : flags := fun x => if String.eqb x g then true else nz x.
+
+Inductive vrun : flags -> vsk -> list vev -> bool -> flags -> Prop :=
+| VR_skip : forall nz, vrun nz VSkip [] false nz
+| VR_ret : forall nz, vrun nz VRet [] true nz
+| VR_atomic : forall nz fn n, vrun nz (VAtomic fn n) [VTau] false nz
+| VR_plain_w : forall nz fn n, vrun nz (VPlain fn n true) [VWr n] false nz
+| VR_plain_r : forall nz fn n, vrun nz (VPlain fn n false) [VRd n] false nz
+| VR_call : forall nz fn c, vrun nz (VCall fn c) [VTau] false nz
+| VR_set : forall nz fn g, vrun nz (VSet fn g) [VTau] false (set_flag nz g)
+| VR_fn : forall nz b t fl nz', vrun nz b t fl nz' -> vrun nz (VFn b) t false nz'
+| VR_guard_skip : forall nz g b, nz g = true -> vrun nz (VGuard g b) [] false nz
+| VR_guard_enter : forall nz g b t fl nz', nz g = false -> vrun nz b t fl nz' -> vrun nz (VGuard g b) (VZero g :: t) fl nz'
+| VR_seq : forall nz a b t1 t2 fl nz1 nz2, vrun nz a t1 false nz1 -> vrun nz1 b t2 fl nz2 -> vrun nz (VSeq a b) (t1 ++ t2) fl nz2
+| VR_seq_abrupt : forall nz a b t1 nz1, vrun nz a t1 true nz1 -> vrun nz (VSeq a b) t1 true nz1
+| VR_alt_l : forall nz a b t fl nz', vrun nz a t fl nz' -> vrun nz (VAlt a b) t fl nz'
+| VR_alt_r : forall nz a b t fl nz', vrun nz b t fl nz' -> vrun nz (VAlt a b) t fl nz'
+| VR_loop_0 : forall nz a, vrun nz (VLoop a) [] false nz
+| VR_loop_next : forall nz a t1 fl1 nz1 t2 fl nz2, vrun nz a t1 fl1 nz1 -> vrun nz1 (VLoop a) t2 fl nz2 -> vrun nz (VLoop a) (t1 ++ t2) fl nz2
+| VR_loop_exit : forall nz a t1 fl nz1, vrun nz a t1 true nz1 -> vrun nz (VLoop a) t1 fl nz1.
+
+(* s cannot be left by return/break/continue *)
+Fixpoint noabrupt (s : vsk) : bool :=
+  match s with
+  | VRet => false
+  | VGuard _ b | VLoop b => noabrupt b
+  | VSeq a b | VAlt a b => noabrupt a && noabrupt b
+  | _ => true
+  end.
+
+(* every path of s (normal or abrupt) sets flag g *)
+Fixpoint must_set (g : string) (s : vsk) : bool :=
+  match s with
+  | VSet _ g' => String.eqb g' g
+  | VFn b => must_set g b
+  | VSeq a b => must_set g a || (noabrupt a && must_set g b)
+  | VAlt a b => must_set g a && must_set g b
+  | _ => false
+  end.
+
+(* after every path of s flag g is non-zero: an `if (!g) { ...; g.store(1); }` that is always reached *)
+Fixpoint always_sets (g : string) (s : vsk) : bool :=
+  match s with
+  | VSet _ g' => String.eqb g' g
+  | VGuard g' b => String.eqb g' g && must_set g b
+  | VFn b => always_sets g b
+  | VSeq a b => always_sets g a || (noabrupt a && always_sets g b)
+  | VAlt a b => always_sets g a && always_sets g b
+  | _ => false
+  end.
+
+(* (entry point prefix, flag): one normal call of the entry point leaves the flag set *)
+Definition warmup_pairs : list (string * string) :=
+  [ ("VirtMem::info :", "VirtMem::info::vm_info_initialized"); ("CpuInfo::host :", "CpuInfo::host::cpu_info_initialized_flag") ].
+
+Definition find_entry (p : string) (eps : list (string * vsk)) : option vsk :=
+  match filter (fun e => String.prefix p (fst e)) eps with (_, s) :: _ => Some s | [] => None end.
+
+Definition warmup_diag (eps : list (string * vsk)) : list string :=
+  flat_map (fun pf => match find_entry (fst pf) eps with
+                      | None => ["MISSING entry point " ++ fst pf]
+                      | Some s => if always_sets (snd pf) s then []
+                                  else ["a normal call of " ++ fst pf ++ " does not always leave " ++ snd pf ++ " set"] end) warmup_pairs.
